@@ -6,6 +6,7 @@ import AquaDrv.AstJson
 import AquaDrv.ExecOp
 import AquaDrv.MiscOps
 import AquaDrv.C26Ops
+import AquaDrv.C24Ops
 /-! Line-protocol driver of the model: one JSON request per line on stdin, one JSON answer per line. -/
 open Lean Aqua
 
@@ -21,6 +22,7 @@ def dispatch (j : Json) : Json :=
   | "sig_merge" => opSigMerge j
   | "json_float_queries" => opJsonFloatQueries j
   | "json_parse" => opJsonParse j
+  | "lens" => C24.opLens j
   | "ping" => Json.mkObj [("pong", true)]
   | op => Json.mkObj [("error", s!"unknown op {op}")]
 
